@@ -21,8 +21,8 @@ RULE = (
     "Non-trivial = a constructor or rescale call completed (or was rejected) under the snapshot "
     "wrapper and the table has >= 10 rows; distinct = descriptor hash."
 )
-MIN_NONTRIVIAL = {"quick": 150, "thorough": 2500}
-SHARDS = {"quick": 1, "thorough": 8}
+MIN_NONTRIVIAL = {"quick": 150, "thorough": 12000}
+SHARDS = {"quick": 1, "thorough": 16}
 GENERATOR = {"tables": "3 shipped, build_pvt_gas to 3000/6000 psia, 6 synthetic families x 12..400 nodes, uniform / non-uniform; 30 % re-expressed in other unit systems (compressibility x 1e-10..1e3, viscosity x 1e-6..1e3)", "p_i": "node / off-node / below / above"}
 ASSUMPTIONS = [
     "'raise an error' accepts any Exception subclass",
@@ -79,7 +79,7 @@ def setup(ck):
 
 def generate(ck):
     rng = ck.rng
-    n = 220 if ck.tier == "quick" else 3600
+    n = 220 if ck.tier == "quick" else 20000
     descs = []
     for i in range(n):
         t = tables.random_table_desc(rng, allow_built=(i % 3 == 0))
@@ -266,6 +266,24 @@ def run_case(ck, desc):
     ck.count("lookups_checked", len(q))
     if np.any(bad):
         ck.violation("lookup-finite-in-range", {"query": q[bad][:3], "value": v[bad][:3], "range": [lo, hi]}, desc)
+    # a second table that shares the pressure and pseudopressure columns but has another
+    # compressibility / viscosity, wrapped right afterwards in the same process: its diffusivity is
+    # ITS OWN 1/(c mu)
+    if branch in ("long", "simple"):
+        twin = {k: np.array(tab[k], dtype=float) for k in (tab.columns if isinstance(tab, pd.DataFrame) else tab)}
+        twin["compressibility"] = twin["compressibility"] * 1.37
+        twin["viscosity"] = twin["viscosity"] * np.linspace(0.8, 1.1, len(twin["viscosity"]))
+        twin_arg = pd.DataFrame(twin) if desc["as"] == "df" else twin
+        with warnings.catch_warnings():
+            warnings.simplefilter("ignore")
+            obj2 = cls(twin_arg, p_i)
+        drain("__init__")
+        want2 = 1 / (twin["compressibility"] * twin["viscosity"])
+        got2 = np.asarray(obj2.alpha(np.asarray(obj2.pvt_props["m-scaled"], dtype=float)), dtype=float)
+        e2 = float(np.max(np.abs(got2 / want2 - 1)))
+        if not ck.margin("alpha(node)=1/(c mu) (twin table, same p and m)", e2, 1e-12):
+            ck.violation("alpha(node)=1/(c mu)", {"worst_rel": e2, "twin_table": True}, desc)
+        ck.count("twin_tables_constructed")
     ck.count(f"constructed.{branch}.{desc['as']}.{where}")
     return n_rows >= 10, {"rows": n_rows, "m_i": m_i, "p_i": p_i, "where": where}
 
